@@ -17,10 +17,11 @@ def meta(path):
     return out
 
 
+CLAIM = set(open(os.path.join(V, "claimed.txt")).read().split())
 checks, claimed = [], set()
 for p in sorted(glob.glob(os.path.join(V, "harness", "props", "c*.py"))):
     m = meta(p)
-    if "ID" not in m or m.get("DISABLED"):
+    if "ID" not in m or m.get("DISABLED") or m["ID"] not in CLAIM:
         continue
     pid = m["ID"]
     claimed.add(pid)
